@@ -46,6 +46,7 @@ from engine import tt, scope
 from engine.common import setup_paths
 
 PROPERTY = 'C05'
+SECOND_PASS = ('run_shard',)     # see engine/common._run_shard
 LEVEL = 'exploration'
 EXHAUSTIVE = True
 RULE = ('every CNF of engine.scope.cnfs(v,m) (clause alphabet with the empty clause, repeated and '
@@ -704,6 +705,8 @@ def run_one(case, R):
 def run_shard(args, R):
     jobs = plan(args['tier'], args['seed'])
     mine = jobs[args['i']::args['of']]
+    if args.get('reverse'):
+        mine = list(reversed(mine))
     for job in mine:
         if job[0] == 'X':
             run_one(job[1], R)
